@@ -1,3 +1,4 @@
 /- C09 — import hub for the proof files about `Tx/Record.lean`. -/
 import ImmuModel.Tx.RecordRoundTrip
 import ImmuModel.Tx.RecordAuth
+import ImmuModel.Tx.RecordTotal
